@@ -21,7 +21,7 @@
 (***************************************************************************)
 EXTENDS Naturals, Sequences, FiniteSets, TLC, Json
 
-CONSTANTS Names, DKeys, MaxOps, ThresholdChecked, ProbeRefusals
+CONSTANTS Names, DKeys, MaxOps, ThresholdChecked, ProbeRefusals, MinOps
 
 Top == "targets"
 DRoles == {"d1", "d2"}
@@ -107,7 +107,7 @@ Chain(d) == IF role[d].parent = Top THEN role[d].m ELSE role[d].m \cap role[role
 PathsOk == \A d \in DRoles : role[d].on => role[d].names \subseteq Chain(d)
 \* RepositoryEditor::sign(keys): signs the edited role (if any), snapshot and timestamp
 Sign(ks) ==
-  /\ Can /\ {101, 102} \subseteq ks
+  /\ Can /\ {101, 102} \subseteq ks /\ Len(ops) >= MinOps      \* MinOps: long programs in simulation
   /\ (editing # "none" => Cardinality(ks \cap RoleKeys(editing)) >= RoleThr(editing))
   /\ (editing = "none" => TRUE)
   /\ IF editing # "none"
